@@ -161,7 +161,7 @@ class SchedSim(object):
 
     MAX_SETTLE = 4000
 
-    def __init__(self, layout, cls='continuous', scattered=True):
+    def __init__(self, layout, cls='continuous', scattered=True, session=None, baton=None):
         self.problems = []          # (property, signature, message)
         self.stats    = {'grants': 0, 'grants_shared_node': 0, 'waited': 0,
                          'canceled_waiting': 0, 'failed_unsched': 0,
@@ -173,7 +173,7 @@ class SchedSim(object):
                          'app_skipped_conflict': 0, 'cancel_running': 0}
         self.labels   = set()
 
-        self.baton = Baton()
+        self.baton = baton or Baton()
         self.ftime = FakeTime(self.baton)
         self._nq   = 0
         _CTX['sim'] = self
@@ -181,11 +181,12 @@ class SchedSim(object):
         self.rm, self.L = make_rm(layout)
         self.jsrun = (cls == 'jsrun')
 
-        self.sess = HollowSession(module='pilot.0000', uid='rp.session.verif.sched')
-        self.sess._rcfg = ru.Config(cfg={'resource_manager': 'FAKE',
-                                         'agent_scheduler': 'CONTINUOUS',
-                                         'launch_methods': {},
-                                         'scattered': bool(scattered)})
+        self.sess = session or HollowSession(module='pilot.0000', uid='rp.session.verif.sched')
+        rcfg = {'resource_manager': 'FAKE', 'agent_scheduler': 'CONTINUOUS',
+                'launch_methods': {}, 'scattered': bool(scattered)}
+        if session is not None and session._rcfg:
+            rcfg = dict(session._rcfg.as_dict(), **rcfg)
+        self.sess._rcfg = ru.Config(cfg=rcfg)
         self.net = self.sess.net
         reg = self.sess._reg
         self.url_exec  = reg['bridges.%s' % rpc.AGENT_EXECUTING_QUEUE]['addr_put']
